@@ -198,7 +198,9 @@ class GroundUnit(Unit):
         res = UnitResult(self.name, self.kind)
         t0 = time.time()
         for (name, ok, detail, witness) in self.fn(ctx, *self.args):
-            res.obligations.append(ObRec(name, "ground", "unsat" if ok else "sat", 0.0, detail, witness, "eval", self.name))
+            unconf = bool(isinstance(witness, dict) and witness.pop("_unconfirmed", False))
+            res.obligations.append(ObRec(name, "ground", "unsat" if ok else "sat", 0.0, detail, witness, "eval", self.name,
+                                         unconfirmed=unconf and not ok))
         res.wall = time.time() - t0
         return res
 
@@ -312,6 +314,10 @@ def _run_unit_inner(unit):
     except BaseException as e:  # engine crash: exit 3 material, never a verdict
         if isinstance(e, (KeyboardInterrupt, UnitTimeout)):
             raise
+        tb = "".join(traceback.format_exception(type(e), e, e.__traceback__))
+        if "UnitTimeout" in tb:
+            # the alarm fired inside a ctypes callback of the solver API: the timeout surfaces wrapped in ArgumentError
+            raise UnitTimeout() from None
         r = UnitResult(unit.name, unit.kind)
         r.error = "".join(traceback.format_exception(type(e), e, e.__traceback__))[-3000:]
         r.wall = time.time() - t0
